@@ -4,6 +4,7 @@ import (
 	"context"
 	"fmt"
 	"reflect"
+	"sync/atomic"
 )
 
 var (
@@ -14,16 +15,17 @@ var (
 type FieldQuery struct {
 	Name   string
 	Fields []*FieldQuery
-	hash   string
+	hash   atomic.Value // string; a query placed in contexts is shared by goroutines
 }
 
 func (q *FieldQuery) Hash() string {
-	if q.hash != "" {
-		return q.hash
+	if h, ok := q.hash.Load().(string); ok {
+		return h
 	}
 	b, _ := Marshal(q)
-	q.hash = string(b)
-	return q.hash
+	h := string(b)
+	q.hash.Store(h)
+	return h
 }
 
 func (q *FieldQuery) MarshalJSON() ([]byte, error) {
